@@ -284,6 +284,7 @@ def op_instances(U_o, U_p, others):
     """All operation instances over the universe: (op, args tuple, kwargs dict)."""
     inst = []
     unk_o, unk_p = 'zz', 'yy'
+    first_o, first_p = U_o[0], U_p[0]
     for o in U_o:
         for p in U_p:
             for v in (True, False):
@@ -343,6 +344,8 @@ def cases(tier, seed, spec):
     n = 16
     for k in range(n):
         yield {'kind': 'bfs', 'slice': k, 'of': n, 'universe': 'abc' if tier == 'thorough' else 'ab'}
+    for k in range(n):          # the same exploration with multi-character names (distinct str objects per call)
+        yield {'kind': 'bfs', 'slice': k, 'of': n, 'universe': 'ab', 'long_names': True}
     for k in range(400 if tier == 'quick' else 6000):
         yield {'kind': 'random', 'n': k}
     for k in range(48 if tier == 'quick' else 600):
@@ -359,7 +362,19 @@ def _materialise(D, args, others_real, d):
     return out
 
 
+def fresh(x):
+    """An equal but distinct str object (names read from files/JSON are never the identical object)."""
+    if isinstance(x, str) and len(x) > 1:
+        return (x + '\0')[:-1]
+    if isinstance(x, tuple):
+        return tuple(fresh(v) for v in x)
+    if isinstance(x, list):
+        return [fresh(v) for v in x]
+    return x
+
+
 def apply_op(d, op, args, kwargs):
+    args = [fresh(a) for a in args]
     if op == '__setitem__':
         return call(d.__setitem__, *args)
     if op == '__ior__':
@@ -372,7 +387,12 @@ def apply_op(d, op, args, kwargs):
 def run_bfs(concepts, case, spec):
     D = concepts.Definition
     U_o, U_p = list(case['universe']), ['p', 'q']
+    if case.get('long_names'):
+        U_o, U_p = ['obj-' + x for x in U_o], ['prop-' + x for x in U_p]
     others = OTHERS[:6] if case['universe'] == 'ab' else OTHERS
+    if case.get('long_names'):
+        ren = {'a': 'obj-a', 'b': 'obj-b', 'c': 'obj-c', 'p': 'prop-p', 'q': 'prop-q'}
+        others = [(tuple(ren[x] for x in o), tuple(ren[x] for x in p), b) for o, p, b in others]
     inst = op_instances(U_o, U_p, others)
     start = ((), (), ())
     seen = {TableModel(*start).key(): start}
@@ -484,7 +504,8 @@ def run_large(concepts, case, spec):
     no, np_ = rng.choice([(70, 6), (140, 9), (300, 5), (420, 4), (8, 280), (5, 90), (1100, 3), (3, 2100), (2600, 2)])
     objs = [f'o{i:03d}' for i in range(no)]
     props = [f'p{j:03d}' for j in range(np_)]
-    d = D(objs, props, [tuple(rng.random() < .3 for _ in props) for _ in objs])
+    dens = rng.choice([.3, .3, .002])        # also very sparse tables (remove_empty_* has much to remove)
+    d = D(objs, props, [tuple(rng.random() < dens for _ in props) for _ in objs])
     keep_o = rng.sample(objs, max(2, no // rng.choice([2, 5, 20])))
     keep_p = rng.sample(props, max(2, np_ // rng.choice([1, 2, 5])))
     other = D(keep_o + ['extra1', 'extra2'], keep_p + ['pextra'],
